@@ -87,6 +87,7 @@ type Options struct {
 	StartTime          time.Time
 	GodIsIdentity      bool
 	ZeroStakes         bool // genesis identities without stake
+	AllValidated       bool // genesis identities are all Newbie/Verified/Human
 	Epoch              EpochMode
 	MempoolCfg         *config.Mempool
 	Tweak              func(c *config.ConsensusConf)
@@ -150,6 +151,7 @@ type World struct {
 	dirSeq   int
 	Stats    map[string]int
 	beforePropose func(p *Replica)
+	beforeDistribute func(b *types.Block, p *Replica)
 	// OnBlock observers run after a block was inserted into every replica
 	OnBlock []func(w *World, b *types.Block)
 }
@@ -215,6 +217,9 @@ func NewWorld(opt Options) *World {
 		w.Alloc[n.Addr] = config.GenesisAllocation{Balance: Dna(50000), Stake: stake(), State: uint8([]state.IdentityState{state.Verified, state.Human}[r.Intn(2)])}
 	}
 	sts := []state.IdentityState{state.Newbie, state.Verified, state.Human, state.Verified, state.Human, state.Newbie, state.Suspended, state.Zombie, state.Candidate}
+	if opt.AllValidated {
+		sts = []state.IdentityState{state.Newbie, state.Verified, state.Human, state.Verified, state.Human}
+	}
 	for _, a := range w.Idents {
 		w.Alloc[a.Addr] = config.GenesisAllocation{Balance: Dna(int64(r.Range(10, 5000))), Stake: stake(), State: uint8(sts[r.Intn(len(sts))])}
 	}
@@ -489,6 +494,9 @@ func (w *World) NextBlock(emptyPct int) *BlockResult {
 		}
 		prop := w.Propose(p)
 		res.Block = prop.Block
+		if w.beforeDistribute != nil {
+			w.beforeDistribute(prop.Block, p)
+		}
 		// the proposer inserts its own block last, like the engine does after consensus
 		for _, r := range w.Replicas {
 			if !r.Alive || r == p {
